@@ -100,9 +100,10 @@ def replay_lines(src, stub):
       continue
     if any(n.startswith("_") for n in names & defined):
       continue
-    if any(isinstance(n, (pyast.Lambda, pyast.NamedExpr, pyast.ListComp, pyast.DictComp, pyast.SetComp, pyast.GeneratorExp))
+    if any(isinstance(n, (pyast.Lambda, pyast.NamedExpr, pyast.ListComp, pyast.DictComp, pyast.SetComp, pyast.GeneratorExp,
+                          pyast.BoolOp, pyast.IfExp, pyast.UnaryOp, pyast.Compare, pyast.BinOp))
            for n in pyast.walk(st.value)):
-      continue
+      continue   # only reads of A (names, attributes, calls, subscripts, displays): operators are B's own computation
 
     class Q(pyast.NodeTransformer):
       def visit_Name(self, node):
@@ -303,7 +304,8 @@ def work(item):
 def programs(tier):
   from vk import defspace
   ps = [(progspace.pid(s), s) for s in c05.DEFS]
-  ps += [(i, s) for i, s in defspace.programs(tier)]
+  ps += [(i, s) for i, s in defspace.programs(tier)
+         if tier != "quick" or i.startswith(("alone:", "cls:", "flow:assign<-", "flow:initattr<-", "flow:outside<-", "flow:default<-"))]
   if tier == "quick":
     ps += [(i, src) for i, src, _ in progspace.programs("smoke")]
     ps += [(i, src) for i, src, _ in progspace.programs("quick")[100::25]]
